@@ -58,6 +58,8 @@ def setup_path():
     from sim import alloc
 
     alloc.install()
+    # abandoned coroutines of deliberately interrupted runs: not worth a traceback at exit
+    sys.unraisablehook = lambda *_a: None
 
 
 def load(prop):
@@ -382,7 +384,10 @@ def run_batch(prop, tier, n_units=None, workers=None, verif_seed=None):
         f = found[key]
         vj = f["violation"]
         target = (vj["property"], vj["oracle"])
-        small, small_v, nruns = shrink(mod, f["unit"], target, tier=tier)
+        if match_known(vj, known) is not None or len(violations_out) >= 6:
+            small, small_v, nruns = f["unit"], None, 0  # listed already / enough reported
+        else:
+            small, small_v, nruns = shrink(mod, f["unit"], target, tier=tier)
         final_v = small_v.to_json() if small_v is not None else vj
         unit = small if small_v is not None else f["unit"]
         # the minimised tape must reproduce in a fresh interpreter
